@@ -175,6 +175,44 @@ def run(res):
                     flines.append('%s|%s|%s|%s' % (VF.CMD[logic], VF.enc_struct(K.clone()), VF.enc_fair([sorted(P) for P in Fv]), sexpr(t)))
                     fimpl.append(a)
                     fowners.append(ctx)
+    # concurrency: the same long-lived structures and formula objects queried from several threads at once; every
+    # answer must be the one obtained sequentially
+    import threading
+    tK = [random_structure(rng, 5) for _ in range(3)]
+    tk = [k.to_impl() for k in tK]
+    tf = []
+    for _ in range(4):
+        tf.append(('CTL', to_obj(F.rand_ctl(rng, 3), lang('CTL'))))
+        tf.append(('CTLS', to_obj(F.rand_ctls_state(rng, 3, max_temporal=2), lang('CTLS'))))
+        tf.append(('LTL', to_obj(('A', F.rand_ltl_path(rng, 2, max_temporal=2)), lang('LTL'))))
+    jobs_t = [(ki, fi) for ki in range(len(tk)) for fi in range(len(tf))]
+
+    def ask(ki, fi):
+        logic, o = tf[fi]
+        try:
+            with contextlib.redirect_stdout(io.StringIO()):
+                return 'OK ' + ' '.join(map(str, sorted(lang(logic).modelcheck(tk[ki], o))))
+        except Exception as e:
+            return 'ERR ' + type(e).__name__
+    seq_ans = {j: ask(*j) for j in jobs_t}
+    par_ans = {}
+
+    def worker(share):
+        for j in share:
+            par_ans[j] = ask(*j)
+    order_t = list(jobs_t) * 2
+    rng.shuffle(order_t)
+    threads = [threading.Thread(target=worker, args=(order_t[i::4],)) for i in range(4)]
+    for th in threads:
+        th.start()
+    for th in threads:
+        th.join()
+    tbad = [j for j in jobs_t if par_ans.get(j) != seq_ans[j]]
+    for j in tbad[:2]:
+        violations.append(('queried from 4 threads at once, %s on structure #%d answers %s; alone it answers %s'
+                           % (tf[j[1]][1], j[0], par_ans.get(j), seq_ans[j]),
+                           {'structure': tK[j[0]].describe(), 'formula': str(tf[j[1]][1]), 'logic': tf[j[1]][0],
+                            'history': '4 threads share the structures and formula objects'}))
     model = [mc_common.norm(x) for x in lean_batch(lines)]
     bad = 0
     for a, m, ctx in zip(impl_first, model, owners):
@@ -202,7 +240,7 @@ def run(res):
                 'without F, whose first answer is also compared with the Lean model' % (nhist, length),
         'call_kinds': {'%s/%s/%s' % k: v for k, v in sorted(kinds.items())},
         'purity_violations': len(violations), 'model_disagreements': bad, 'fair_model_disagreements': fbad,
-        'caller_side_edits_between_calls': edits, 'calls_with_F_compared_with_model': len(flines),
+        'caller_side_edits_between_calls': edits, 'threaded_calls': len(order_t), 'threaded_disagreements': len(tbad), 'calls_with_F_compared_with_model': len(flines),
         'samples': owners[:2],
         'traces_validated_against_impl': nhist,
     })
